@@ -32,6 +32,13 @@ FA = "mokapot.parsers.fasta."
 
 def run(ctx):
     prog = ctx.prog
+    from ..memo import check_no_cross_call_state
+    reach = prog.reachable([FA + "make_decoys"])
+    check_no_cross_call_state(
+        ctx, "C18-no-cross-call-state",
+        [prog.funcs[q] for q in sorted(reach) if q in prog.funcs
+         and not isinstance(prog.funcs[q].node, ast.Lambda)],
+        "decoy generation")
     _shuffle(ctx, prog.func(FA + "_shuffle_proteins"))
     _make(ctx, prog.func(FA + "make_decoys"))
 
@@ -41,7 +48,7 @@ def _shuffle(ctx, f):
     du = DefUse(prog, f)
     T = Terms(du, phi_vars=True)
     cfg = CFG(f.node)
-    p_prots, p_prefix, p_enz, p_rev = f.params
+    p_prots, p_prefix, p_enz, p_rev = f.params[:4]
     ol = [n for n in f.node.body if isinstance(n, ast.For)]
     ctx.require(len(ol) == 1 and isinstance(ol[0].target, ast.Tuple),
                 f"{f.qual}: protein loop not found")
